@@ -101,6 +101,8 @@ def check_flag_q(prog, rep, modules=(NPC, SPARSE, CACHE)):
                                       st.lineno)
                         continue
                     _check_witness(rep, m, q, f, st, x, w)
+            # ---- flags inherited from operands must cover every operand whose rows are used
+            _check_flag_inherit(rep, m, q, f, qstores, fstores)
             if not qstores:
                 continue
             if key in ORDER_PRESERVING:
@@ -154,6 +156,52 @@ def check_flag_q(prog, rep, modules=(NPC, SPARSE, CACHE)):
                                   'are lexsorted" may be stale; the binary merge in '
                                   'ibinary_blockwise / inner trusts it' %
                                   (q, x, key_text(sts[0]), x), sts[0].lineno)
+
+
+def _check_flag_inherit(rep, m, q, f, qstores, fstores):
+    from ..core import local_defs
+    defs = local_defs(f)
+
+    def operands_of(expr, attr):
+        """names P such that `P.<attr>` flows into expr (through local definitions)"""
+        out = set()
+        seen = set()
+        todo = [expr]
+        while todo:
+            e = todo.pop()
+            for n in ast.walk(e):
+                if isinstance(n, ast.Attribute) and n.attr == attr and isinstance(
+                        n.value, ast.Name):
+                    out.add(n.value.id)
+                elif isinstance(n, ast.Name) and n.id not in seen:
+                    seen.add(n.id)
+                    todo.extend(defs.get(n.id, []))
+        return out
+
+    for st, x in fstores:
+        val = getattr(st, 'value', None)
+        if val is None or isinstance(val, ast.Constant) or not isinstance(st, ast.Assign):
+            continue
+        flag_ops = operands_of(val, '_qdata_sorted')
+        if not flag_ops:
+            continue  # computed (np.all(...), loaded, ...)
+        data_ops = set()
+        for st2, x2 in qstores:
+            if x2 == x and isinstance(st2, ast.Assign) and not isinstance(
+                    st2.targets[0], ast.Subscript):
+                data_ops |= operands_of(st2.value, '_qdata')
+        data_ops.discard(x)
+        rep.instance('FLAG-Q-inherit', {'function': q, 'store': key_text(st),
+                                        'rows_from': sorted(data_ops),
+                                        'flag_from': sorted(flag_ops)})
+        missing = data_ops - flag_ops
+        if missing:
+            rep.violation('FLAG-Q-inherit', m, q, 'flag-ignores-operand:' + ','.join(sorted(missing)),
+                          '`%s`: the block indices of `%s` are built from the rows of %s, but the '
+                          'sortedness claim only consults %s: if `%s._qdata` is not sorted the '
+                          'result claims sorted indices that are not' %
+                          (key_text(st), x, sorted(data_ops), sorted(flag_ops),
+                           sorted(missing)[0]), st.lineno)
 
 
 _REF = {}
